@@ -560,7 +560,10 @@ func (v *Decoder) walkNode(ectx evaluationContext, n *html.Node) error {
 									typedResourceAnno = attrProfile.ValueOffsets
 								}
 							}
-						} else if attrHref != nil {
+						}
+
+						// an ignored value (such as the empty safe CURIE) counts as an absent attribute
+						if typedResource == nil && attrHref != nil {
 							typedResource = resolveIRI(ectx, localPrefixMappings, *attrHref, localBaseURL, localDefaultVocabulary, false, true)
 							typedResourceAnno = nil
 
@@ -569,7 +572,9 @@ func (v *Decoder) walkNode(ectx evaluationContext, n *html.Node) error {
 									typedResourceAnno = attrProfile.ValueOffsets
 								}
 							}
-						} else if attrSrc != nil {
+						}
+
+						if typedResource == nil && attrSrc != nil {
 							typedResource = resolveIRI(ectx, localPrefixMappings, *attrSrc, localBaseURL, localDefaultVocabulary, false, true)
 							typedResourceAnno = nil
 
@@ -578,7 +583,9 @@ func (v *Decoder) walkNode(ectx evaluationContext, n *html.Node) error {
 									typedResourceAnno = attrProfile.ValueOffsets
 								}
 							}
-						} else {
+						}
+
+						if typedResource == nil {
 							typedResource = ectx.Global.BlankNodeStringFactory.NewBlankNode()
 							typedResourceAnno = nil
 
